@@ -28,3 +28,65 @@ package hamt
 //@ ensures err != nil ==> hb.consumed == old(hb.consumed)
 //@ ensures err == nil <==> old(hb.consumed) + i <= len(old(hb.b))*8
 //@ assigns hb.consumed
+
+// ---------------------------------------------------------------------------------------------
+// Representation invariants. A shard's UnixFS data passed validateHAMTData, its fanout is the
+// validated power of two in 8..1024, its bitfield has exactly fanout bits and its cache map
+// exists; these fields are never written after construction. An iterator's pad length is
+// non-negative; a hashBits cursor stays within its hash.
+
+//@ props C02 C08 C12 C13 C15
+
+//@ spec def wfData(nd *data._UnixFSData) bool = nd != nil && nd.Fanout.m == 2 && nd.Data.m == 2 && nd.Fanout.v.x > 0 && (nd.Fanout.v.x & (nd.Fanout.v.x - 1)) == 0
+//@ spec def shardFanout(n *hamt._UnixFSHAMTShard) int64 = n.data.Fanout.v.x
+//@ typeinv hamt._UnixFSHAMTShard: wfData(self.data) && 8 <= shardFanout(self) && shardFanout(self) <= 1024 && len(self.bitfield) * 8 == shardFanout(self) && self.shardCache != nil && self._substrate != nil
+//@ typeinv hamt._UnixFSShardedDir__ListItr: 0 <= self.maxPadLen && self.nd != nil && self._substrate != nil
+//@ typeinv hamt.hashBits: 0 <= self.consumed && self.consumed <= len(self.b) * 8
+
+//@ func hamt.checkLogTwo
+//@ ensures err == nil <==> (v > 0 && (v & (v - 1)) == 0)
+//@ assigns nothing
+
+//@ func hamt.validateHAMTData
+//@ ensures err == nil ==> wfData(nd)
+//@ assigns nothing
+
+//@ func hamt.log2Size
+//@ requires wfData(nd)
+//@ ensures 0 <= result && result < 63 && (1 << result) == nd.Fanout.v.x
+//@ assigns nothing
+
+//@ func hamt.maxPadLength
+//@ requires wfData(nd)
+//@ ensures 0 <= result
+//@ assigns nothing
+
+//@ func hamt.bitField
+//@ requires wfData(nd)
+//@ ensures err == nil ==> len(result) * 8 == nd.Fanout.v.x && 8 <= nd.Fanout.v.x && nd.Fanout.v.x <= 1024
+//@ assigns nothing
+
+//@ func hamt.isValueLink
+//@ ensures err == nil && result ==> pbLink.Name.m == 2 && len(pbLink.Name.v.x) > maxPadLen
+//@ ensures err == nil && !result ==> pbLink.Name.m == 2 && len(pbLink.Name.v.x) == maxPadLen
+//@ assigns nothing
+
+//@ func hamt.MatchKey
+//@ requires 0 <= maxPadLen && pbLink.Name.m == 2 && len(pbLink.Name.v.x) >= maxPadLen
+//@ assigns nothing
+
+//@ func hamt.NewUnixFSHAMTShard
+//@ ensures err == nil ==> result != nil && typeis(result, "*hamt._UnixFSHAMTShard") && fresh(result)
+//@ ensures err == nil ==> result.(*hamt._UnixFSHAMTShard)._substrate == substrate && result.(*hamt._UnixFSHAMTShard).data == data && result.(*hamt._UnixFSHAMTShard).lsys == lsys
+//@ ensures err != nil ==> result == nil
+
+//@ func (*hamt._UnixFSHAMTShard).hasChild
+//@ requires 0 <= childIndex && childIndex < shardFanout(n)
+//@ assigns nothing
+
+//@ func (*hamt._UnixFSHAMTShard).getChildLink
+//@ requires 0 <= childIndex && childIndex < shardFanout(n)
+//@ assigns nothing
+
+//@ func (hamt.stringTransformer).transformNameNode
+//@ requires recv-pad: 0 <= s.maxPadLen
